@@ -152,8 +152,21 @@ def run_explore(case):
     box = [0]
     check = _checker(ref, p, case["team"], box)
     rng = case.get("range")
-    stats = vgomp.explore(fn, case["team"], case["bound"], check, first_dev_range=tuple(rng) if rng else None,
+    # iterate the bound: every schedule with <= 1 deviation is always explored to completion; the second level runs
+    # under a wall-clock budget and reports honestly whether it completed (evidence: bound2_completed / bound2_capped)
+    b1 = min(case["bound"], 1)
+    stats = vgomp.explore(fn, case["team"], b1, check, first_dev_range=tuple(rng) if rng else None,
                           max_exec=case.get("max_exec", 60000))
+    bound_done = b1 if not stats["capped"] else 0
+    if case["bound"] >= 2 and not stats["failures"]:
+        s2 = vgomp.explore(fn, case["team"], 2, check, first_dev_range=tuple(rng) if rng else None,
+                           max_exec=case.get("max_exec", 60000), time_budget=case.get("time_budget", 60.0))
+        s2["executions"] += stats["executions"]
+        if not s2["capped"]:
+            bound_done = 2
+        s2["capped_level2"] = s2["capped"]
+        s2["capped"] = stats["capped"]
+        stats = s2
     fails = _fail_from_stats(stats, p, case["team"], "explore")
     # replay determinism of one recorded schedule (twice, identical observations)
     if stats["points_max"] > 0 and not fails:
@@ -166,7 +179,7 @@ def run_explore(case):
     return {"fail": fails, "evals": stats["executions"], "edges": stats["executions"] * max(stats["points_max"], 1),
             "outcome": [_pid(p), vgomp.out_hash(ref.output)],
             "info": {"executions": stats["executions"], "points": stats["points_max"], "kinds": stats["kinds"],
-                     "capped": stats["capped"], "reassoc": box[0], "regions": ref.regions},
+                     "capped": stats["capped"], "bound_completed": bound_done, "reassoc": box[0], "regions": ref.regions},
             "regions": sorted(vgomp.region_functions()), "capped": stats["capped"]}
 
 
@@ -373,7 +386,9 @@ def finish(tier, seed, cases, results):
         "states": max(total_exec, 1), "traces_validated_against_impl": total_exec,
         "states_note": "every state is one executed schedule of one harness body (real C code under vgomp), plus the sub-process runs",
         "schedules_executed": execs, "max_scheduling_points_in_one_execution": pts,
-        "completed_deviation_bound": 1 if tier == "quick" else 2,
+        "completed_deviation_bound": 1,
+        "bodies_with_deviation_bound_2_completed": sum(1 for r in results if (r.get("info") or {}).get("bound_completed") == 2),
+        "bodies_with_deviation_bound_2_stopped_by_time_budget": sum(1 for c, r in zip(cases, results) if c.get("kind") in ("explore", "e2edev") and c.get("bound", 1) >= 2 and (r.get("info") or {}).get("bound_completed", 0) < 2),
         "omp_region_functions_total": len(allf), "omp_region_functions_entered": len(entered),
         "omp_region_functions_not_entered": missing,
         "reassociation_level_differences": reassoc, "race_candidates": cand,
